@@ -453,6 +453,14 @@ O(id='uper_open_type_put.leak', props=['C14', 'C07'], kind='bounded', entry='h_u
   bound='an open type whose contents are 0..8 bits, written at the end of the 32-octet scratch space; callback may fail at any call; every allocation may fail',
   min_props=50, timeout=900, tier='experimental')
 
+# ---------------------------------------------------------------- ENUMERATED over UPER
+O(id='NativeEnumerated_uper', props=['C01', 'C02', 'C08', 'C13'], kind='bounded', entry='h_NativeEnumerated_uper', harness='harness/h_enumerated_uper.c',
+  units=[SK + 'NativeEnumerated.c'], functions=['NativeEnumerated_encode_uper', 'NativeEnumerated_decode_uper'], stubs=['stubs/bsearch.c'],
+  fp_restrict=[(r'\.output\)$', ['vf_cb']), (r'compar$', ['NativeEnumerated__compar_value2enum'])],
+  unwind=18, cbmc=['--unwindset', 'asn_put_few_bits:3,asn_get_few_bits:4', '--no-malloc-may-fail'],
+  bound='one enumeration with four values {0,1,5,100}, with and without an extension marker after the second; every long value',
+  trusted=['bsearch: stub (stubs/bsearch.c)'], min_props=50, timeout=900)
+
 CONSTR = 'constructed codecs (SEQUENCE_*, SET_*, CHOICE_*, SET_OF_* / SEQUENCE_OF_* encode/decode for BER, OER, UPER), for arbitrary and for generated descriptors: symbolic execution of SEQUENCE_decode_ber on a generated 2-member descriptor does not finish in 10 minutes; the modular route (replace ber_fetch_tag/ber_check_tags/member decoders by contracts under dfcc) is not built'
 GEN = 'everything the compiler emits as text: type descriptor tables (emit_type_DEF, emit_member_table), constraint checkers (asn1c_emit_constraint_checking_code), tag maps, selector tables'
 XERU = 'all XER encoders/decoders (xer_decode_general, pxml_parse, OCTET_STRING hex/binary/entity bodies, REAL/INTEGER text forms through snprintf/strtod)'
